@@ -736,7 +736,7 @@ func TestC15(t *testing.T) {
 		"wp.serve.beforesend": true, "wp.release.enter": true, "wp.stop.enter": true}
 	p.Install()
 	defer sched.Uninstall()
-	n := r.N(600, 40_000)
+	n := r.N(600, 20_000)
 	mon.Parallel(n, 2*runtime.GOMAXPROCS(0), func(i int) {
 		if !r.Want(i) {
 			return
